@@ -330,6 +330,17 @@ fn judge(rt: &tokio::runtime::Runtime, r: &mut Report, class: &str, cfg: &SvcCfg
     }
 }
 
+const SECRET_LENGTHS: &[usize] = &[16, 24, 64, 100, 119, 120, 121, 123, 124, 125, 128, 129, 160, 256, 300, 1000];
+
+fn sized_secrets(seed: u64, j: u64) -> HashMap<String, String> {
+    let mut g = Rng::new(derive_seed(seed, "C16/secret", j));
+    let len = SECRET_LENGTHS[(j as usize) % SECRET_LENGTHS.len()];
+    let mut m = HashMap::new();
+    m.insert(AK.to_owned(), format!("sk1{}/+", g.alnum(len - 5)));
+    m.insert(AK2.to_owned(), format!("sk2{}=", g.alnum(len.saturating_sub(8).max(12))));
+    m
+}
+
 pub fn run(ctx: &RunCtx) -> i32 {
     let meta = CheckMeta {
         property: "C16",
@@ -358,12 +369,24 @@ pub fn run(ctx: &RunCtx) -> i32 {
     for s in secrets.values() {
         renderings(&mut total, s, &nd);
     }
-    let nd_ref = &nd;
-    let n = ctx.tier.sz(1200, 60_000);
+    for k in 0..SECRET_LENGTHS.len() as u64 {
+        let sized = sized_secrets(ctx.seed, k);
+        renderings(&mut total, &sized[AK], &needles(&sized[AK]));
+    }
+    let n = ctx.tier.sz(2400, 120_000);
     let per = 20u64;
     let rep = par_run(ctx.workers, n.div_ceil(per), |j, r| {
         let rt = new_runtime();
         let mut g = Rng::new(derive_seed(ctx.seed, "C16", j));
+        // secrets of many lengths (signing code may treat long keys differently): every second job uses the
+        // ordinary 40 character keys, the others one of SECRET_LENGTHS
+        let secrets = if j % 2 == 0 { secrets.clone() } else { sized_secrets(ctx.seed, j / 2) };
+        let mut nd: Vec<(String, String)> = Vec::new();
+        for s in secrets.values() {
+            nd.extend(needles(s));
+        }
+        let nd_ref = &nd;
+        r.observe("secret_lengths", secrets[AK].len().to_string());
         let cfg = auth_cfg(&secrets, HostCfg::None);
         let cfg_host = auth_cfg(&secrets, HostCfg::Single("s3.verif.example".into()));
         for _ in 0..per {
